@@ -955,7 +955,7 @@ func buildEvalShapeData(r *prng.Rand, n int) *workload {
 
 // The objective handed to the optimiser is the parallel reduction; the
 // Hook sees (variables, sum) of every evaluation.  Output layout: for every
-// evaluation [marker, #variables, variables..., value, gradient..., hessian...], then [marker, final
+// evaluation [marker, #variables, #derivatives, order, variables..., value, gradient..., hessian...], then [marker, final
 // parameters; compare() aligns evaluations whose variables are bit-identical.
 func buildNumeric(r *prng.Rand, n int) *workload {
 	kind := r.Pick([]string{"normal", "gamma"})
@@ -998,7 +998,7 @@ func buildNumeric(r *prng.Rand, n int) *workload {
 		est.Hook = func(variables ad.ConstVector, s ad.ConstScalar) error {
 			d := s.GetN()
 			out = append(out, math.Float64frombits(0x7ff8000000c0ffee)) // evaluation marker (NaN payload)
-			out = append(out, float64(variables.Dim()))
+			out = append(out, float64(variables.Dim()), float64(d), float64(s.GetOrder()))
 			out = append(out, params(variables)...)
 			out = append(out, s.GetFloat64())
 			if s.GetOrder() >= 1 {
